@@ -244,19 +244,22 @@ class VfsTransport(TransportDecorator):
     def put_file(self, relpath, f, mode=None):
         data = f.read()
         op = self._op("put", relpath, data=data)
-        return self._do(op, self._decorated.put_bytes, relpath, data, mode)
+        self._do(op, self._decorated.put_bytes, relpath, data, mode)
+        return len(data)
 
     def put_bytes(self, relpath, raw_bytes, mode=None):
         if not isinstance(raw_bytes, bytes):
             raise TypeError("raw_bytes must be a plain string, not %s" % type(raw_bytes))
         op = self._op("put", relpath, data=raw_bytes)
-        return self._do(op, self._decorated.put_bytes, relpath, raw_bytes, mode)
+        self._do(op, self._decorated.put_bytes, relpath, raw_bytes, mode)
+        return len(raw_bytes)
 
     def put_file_non_atomic(self, relpath, f, mode=None, create_parent_dir=False, dir_mode=None):
         data = f.read()
         op = self._op("put_na", relpath, data=data)
         try:
-            return self._do(op, self._decorated.put_bytes, relpath, data, mode)
+            self._do(op, self._decorated.put_bytes, relpath, data, mode)
+            return len(data)
         except terrors.NoSuchFile:
             if not create_parent_dir:
                 raise
@@ -265,7 +268,8 @@ class VfsTransport(TransportDecorator):
             if parent_dir:
                 self.mkdir(parent_dir, mode=dir_mode)
                 op = self._op("put_na", relpath, data=data)
-                return self._do(op, self._decorated.put_bytes, relpath, data, mode)
+                self._do(op, self._decorated.put_bytes, relpath, data, mode)
+                return len(data)
             raise
 
     def put_bytes_non_atomic(self, relpath, raw_bytes, mode=None, create_parent_dir=False, dir_mode=None):
